@@ -108,7 +108,10 @@ func shape(sql string) string {
 }
 
 func (p *P) input(g gen.G) string {
-	switch g.S.Intn(10, "c11.input") {
+	switch g.S.Intn(11, "c11.input") {
+	case 10:
+		// nothing to parse: the context still decides the answer
+		return []string{"", " \n\t ", "-- only a comment", "/* only */ -- comments\n", ";", "\n\n"}[g.S.Intn(6, "c11.nostmt")]
 	case 0, 1, 2, 3:
 		return g.Stmt(2)
 	case 4:
@@ -118,6 +121,10 @@ func (p *P) input(g gen.G) string {
 	case 7:
 		return g.Stmt(3)
 	case 8:
+		if g.S.Intn(2, "c11.longtoken") == 1 {
+			// one long token: work (and any polling) inside a comment, string or quoted body
+			return gen.LongToken(g.S.Intn(5, "ltkind"), []int{600, 4100, 4100, 9000, 20000}[g.S.Intn(5, "ltsize")])
+		}
 		return gen.Long([]int{90, 101, 199, 201, 450, 1200, 2500}[g.S.Intn(7, "long")])
 	default:
 		return g.FaultLike()
